@@ -34,7 +34,8 @@ TASKS = [FunctionTask(CHECK_NYQUIST, clauses=["centre frequencies above Nyquist 
 
 META = dict(
     level="other",
-    explanation="proved: row bookkeeping of traditional_hvsr_processing and traditional_single_azimuth_hvsr_processing (row i = ratio from kept recording "
+    explanation="proved: row bookkeeping of traditional_hvsr_processing, traditional_single_azimuth_hvsr_processing and traditional_rotdpp_hvsr_processing, "
+                "azimuthal_hvsr_processing = one single-azimuth result per azimuth with the caller's settings (row i = ratio from kept recording "
                 "i alone, for every arrangement of time steps; numerical stages opaque, callees by contract); "
                 "prepare_records_with_inconsistent_dt for the three policies (retained recordings = the subsequence with the smallest / a most "
                 "frequent step, as the same objects in original order; dictionary = step -> count), check_nyquist_frequency raises ValueError iff some "
@@ -47,7 +48,9 @@ META = dict(
                  "A-SMOOTH-ROWWISE: each row of a smoothing operator's output is a function of the same input row, the frequency vectors and the bandwidth (C02 proves the row formula)",
                  "smoothed vertical spectra are non-zero (the real-number ratio is defined)",
                  "window / rfft / modulus / combination are uninterpreted array functions in the driver proofs (C01, C10, C18 hold their contracts)",
-                 "HvsrTraditional(...) stores copies of the arrays it is given (constructor: C15 / C05)"],
+                 "HvsrTraditional(...) stores copies of the arrays it is given (constructor: C15 / C05)",
+                 "np.percentile(M, p, axis=0)[j] depends only on column j of the rows of M (RotDpp)",
+                 "settings constructors keep copies of dictionary arguments (C15 / fix F-12) - used in the azimuthal proof"],
 )
 
 
@@ -468,3 +471,165 @@ DRV_LEMMAS = [
               "a step counted at least once among positive steps is positive (induction on the index; base: CNT2(d,0) = 0)"),
 ]
 TASKS += DRV_LEMMAS
+
+
+# ---------------------------------------------------------------------------------------------------------------------
+# azimuthal_hvsr_processing: one single-azimuth result per requested azimuth, in order, each computed with *that* azimuth and with the
+# caller's window / smoothing / time-step policy / FFT settings.  The callee is the driver proved above, here the opaque function SAHV of
+# the azimuth and of the settings it is handed (what it returns for them is DRV_SA's postcondition).
+NA = z3.Int("n_azimuths")
+AZS = z3.Const("azimuths_in_degrees", AR)
+SAHV = z3.Function("SAHV", R, I, I)           # id of the HvsrTraditional returned for (azimuth, fingerprint of the other settings)
+_FP_OK = z3.IntVal(1)
+
+
+def _settings_fingerprint(st, s, caller):
+    """1 iff the single-azimuth settings carry the caller's window, smoothing, time-step policy and the *same* fft_settings dictionary"""
+    f, g = st.heap[s.oid].fields, st.heap[caller.oid].fields
+    def eq(a, b):
+        if a is b:
+            return True
+        if isinstance(a, DictV) and isinstance(b, DictV):
+            return set(a.items) == set(b.items) and all(eq(a.items[k], b.items[k]) for k in a.items)
+        if hasattr(a, "s") and hasattr(b, "s"):
+            return a.s == b.s
+        if isinstance(a, tuple) and isinstance(b, tuple):
+            return len(a) == len(b) and all(eq(x, y) for x, y in zip(a, b))
+        return z3.is_expr(a) and z3.is_expr(b) and a.eq(b)
+    same = all(eq(f.get(k), g.get(k)) for k in ("window_type_and_width", "smoothing", "handle_dissimilar_time_steps_by")) \
+        and f.get("fft_settings") is g.get("fft_settings")
+    return z3.IntVal(1 if same else 0)
+
+
+def _azi_inputs(ex, st):
+    st.env["records"] = new_symlist(ex, st, "SeismicRecording3C", length=z3.Int("L_in"), arr=z3.Const("input_record_ids", z3.ArraySort(I, I)), owner="param:records", name="records")
+    azs = ex.alloc_arr(st, (NA,), AZS, "real", "param:settings.azimuths_in_degrees", tag="azimuths")
+    st.env["settings"] = sym_obj(ex, st, "Settings", {
+        "smoothing": DictV({"operator": StrV("konno_and_ohmachi"), "bandwidth": BW}), "fft_settings": NONE_,
+        "window_type_and_width": Tup((StrV("tukey"), WIDTH)), "handle_dissimilar_time_steps_by": StrV("frequency_domain_resampling"),
+        "azimuths_in_degrees": azs, "attr_dict": DictV({})}, owner="param:settings")
+    st.env["NA"] = NA
+    st.env["__caller_settings"] = st.env["settings"]
+    return [NA >= 1, z3.Int("L_in") >= 1]
+
+
+def _m_sa_settings(ex, st, args, kw, node):
+    """settings constructors keep copies of their mutable arguments (C15, fix F-12): a dictionary passed in is not the one stored"""
+    return ex.alloc_obj(st, "Settings", {k: (DictV(dict(v.items)) if isinstance(v, DictV) else v) for k, v in kw.items()}, "fresh")
+
+
+def _m_sa_driver(ex, st, args, kw, node):
+    s = args[1]
+    az = st.heap[s.oid].fields["azimuth_in_degrees"]
+    return SObj("HvsrTraditional", SAHV(real_(az), _settings_fingerprint(st, s, st.env["__caller_settings"])), owner="fresh")
+
+
+def _m_azimuthal_ctor(ex, st, args, kw, node):
+    return ex.alloc_obj(st, "HvsrAzimuthal", {"hvsrs": args[0], "azimuths": args[1], "meta": kw.get("meta", NONE_)}, "fresh")
+
+
+def _sa_settings_havoc(ex, st, v):
+    """the loop assigns only .azimuth_in_degrees of the temporary settings object"""
+    st.heap[v.oid].fields["azimuth_in_degrees"] = ex.fresh("azimuth", R)
+    return v
+
+
+AZI = Contract(
+    qual="hvsrpy.processing.azimuthal_hvsr_processing", params=["records", "settings"],
+    ghost={"SAHV": SAHV, "same_obj": FuncV(lambda ex, st, a, k, n_: a[0].id == a[1], "same_obj")},
+    make_inputs=_azi_inputs, sym_lists={"hvsr_per_azimuth": "HvsrTraditional"}, obj_havoc={"single_azimuth_settings": _sa_settings_havoc},
+    ensures=["len(result.hvsrs) == NA", "forall(a, 0, NA, same_obj(result.hvsrs[a], SAHV(settings.azimuths_in_degrees[a], 1)))",
+             "result.azimuths is settings.azimuths_in_degrees"],
+    loops={0: ["len(hvsr_per_azimuth) == _k0", "forall(a, 0, _k0, same_obj(hvsr_per_azimuth[a], SAHV(settings.azimuths_in_degrees[a], 1)))"]},
+    modifies=["param:settings"], notes="one HvsrTraditional per azimuth, in order, each the single-azimuth result for that azimuth under the caller's other settings")
+TASKS.append(FunctionTask(AZI, module_env={"prepare_fft_settings": FuncV(_m_prepare_fft, "prepare_fft_settings"),
+                                           "HvsrTraditionalSingleAzimuthProcessingSettings": FuncV(_m_sa_settings, "HvsrTraditionalSingleAzimuthProcessingSettings"),
+                                           "traditional_single_azimuth_hvsr_processing": FuncV(_m_sa_driver, "traditional_single_azimuth_hvsr_processing"),
+                                           "HvsrAzimuthal": FuncV(_m_azimuthal_ctor, "HvsrAzimuthal")},
+                          label="hvsrpy.processing.azimuthal_hvsr_processing[per-azimuth]",
+                          clauses=["one single-azimuth result per azimuth, in order, with the caller's settings and FFT length"]))
+
+
+# ---------------------------------------------------------------------------------------------------------------------
+# traditional_rotdpp_hvsr_processing: per recording, the horizontals rotated through every azimuth, smoothed together with the vertical,
+# the requested percentile over the azimuths taken per centre frequency, divided by the smoothed vertical; rows scattered / gathered as above.
+AZS_RD = z3.Const("rotdpp_azimuths", AR)
+PCTL = z3.Real("ppth_percentile")
+A2R = A2(R)
+PCT = z3.Function("PCT", A2R, I, R, I, R)          # percentile p over rows 0..n-1 of a matrix, at column j (np.percentile(., p, axis=0)[j])
+SPECM = z3.Function("SPECM", I, A2R)               # per recording: row a = smoothed spectrum of the horizontals rotated to azimuth a
+
+
+def HAZ(rid, a):
+    ns, ew = _comp(rid, "ns"), _comp(rid, "ew")
+    return ABSA(RFFT(WIN(SAZ(TSAMP(ns), TSAMP(ew), z3.Select(AZS_RD, a)), TSLEN(ns), WIDTH), TSLEN(ns), NFFT))
+
+
+def RATIO_RD(i, j):
+    rid = z3.Select(RR, i)
+    return PCT(SPECM(rid), NA, PCTL, j) / SMF(FRQ(NFFT, DT2(i)), VROW(rid), j)
+
+
+_S1, _S2 = z3.Consts("S1!p S2!p", A2R)
+_aa, _jj, _nn, _rid = z3.Ints("a!p j!p n!p rid!p")
+_pp = z3.Real("p!p")
+AX_RD = AX_DRV + [
+    # definition of the per-recording matrix of smoothed rotated spectra
+    z3.ForAll([_rid, _aa, _jj], z3.Select(z3.Select(SPECM(_rid), _aa), _jj) ==
+              SMF(FRQ(NFFT, objects.fld("TimeSeries", "dt_in_seconds", R)(_comp(_rid, "ns"))), HAZ(_rid, _aa), _jj),
+              patterns=[z3.Select(z3.Select(SPECM(_rid), _aa), _jj)]),
+    # the percentile at column j depends only on column j of the first n rows
+    z3.ForAll([_S1, _S2, _nn, _pp, _jj],
+              z3.Implies(z3.ForAll([_aa], z3.Implies(z3.And(_aa >= 0, _aa < _nn), z3.Select(z3.Select(_S1, _aa), _jj) == z3.Select(z3.Select(_S2, _aa), _jj))),
+                         PCT(_S1, _nn, _pp, _jj) == PCT(_S2, _nn, _pp, _jj)),
+              patterns=[z3.MultiPattern(PCT(_S1, _nn, _pp, _jj), PCT(_S2, _nn, _pp, _jj))]),
+]
+
+
+def _m_percentile(ex, st, args, kw, node):
+    v = args[0]
+    d = ex.arr(st, v)
+    base = st.heap[d.view_of] if d.view_of is not None else d
+    out = ex.fresh("percentile_row", AR)
+    c = z3.Int("c!pc")
+    st.pc.append(z3.ForAll([c], z3.Select(out, c) == PCT(base.data, d.shape[0], real_(args[1]), c), patterns=[z3.Select(out, c)]))
+    return ex.alloc_arr(st, (d.shape[1],), out, "real", "fresh", tag="percentile")
+
+
+def _m_smooth_named(ex, st, args, kw, node):
+    """as _m_smooth, with the output as one constant (so that views of it keep a nameable base)"""
+    return _m_smooth(ex, st, args, kw, node)
+
+
+def _drv_rd_inputs(ex, st):
+    facts = _drv_inputs("rotdpp", "konno_and_ohmachi")(ex, st)
+    f = st.heap[st.env["settings"].oid].fields
+    f["azimuths_in_degrees"] = ex.alloc_arr(st, (NA,), AZS_RD, "real", "param:settings.azimuths_in_degrees", tag="azimuths")
+    f["ppth_percentile_for_rotdpp_computation"] = PCTL
+    st.env["NA"] = NA
+    return facts + [NA >= 1]
+
+
+_NP_RD = ModV("np", dict(_NP_DRV.attrs, percentile=FuncV(_m_percentile, "np.percentile")))
+GH_RD = dict(GH_DRV, RATIO=lambda i, j: RATIO_RD(i, j), HAZ=lambda r, a: HAZ(r, a))
+_ROWOK = "forall(j, 0, NC, hvsr_spectra[{pos}, j] == RATIO(i, j))"
+DRV_RD = Contract(
+    qual="hvsrpy.processing.traditional_rotdpp_hvsr_processing", params=["records", "settings"], ghost=GH_RD, axioms=AX_RD,
+    make_inputs=_drv_rd_inputs, raises_only_if=DRV.raises_only_if, ensures=DRV.ensures,
+    loops={0: ["hvsr_idx == OFF(_k0)", "cur_idx == OFF(_k0)",
+               f"forall(i, 0, LL, implies({_EARLIER}, {_ORD}[i] == {_POS}))",
+               f"forall(i, 0, LL, implies({_EARLIER}, {_ROWOK.format(pos=_POS)}))"],
+           1: ["hvsr_idx == OFF(_k0) + CNT2(dt, _k1)", "cur_idx == OFF(_k0) + CNT2(dt, _k1)",
+               f"forall(i, 0, _k1, implies(DT2(i) == dt, {_ORD}[i] == OFF(_k0) + CNT2(dt, i)))",
+               f"forall(i, 0, _k1, implies(DT2(i) == dt, {_ROWOK.format(pos='OFF(_k0) + CNT2(dt, i)')}))",
+               f"forall(i, 0, LL, implies({_EARLIER}, {_ORD}[i] == {_POS}))",
+               f"forall(i, 0, LL, implies({_EARLIER}, {_ROWOK.format(pos=_POS)}))"],
+           2: ["forall(a, 0, _k2, row_is(raw_spectra_per_record, a, HAZ(RID(_k1), a)))", "row_is(raw_spectra_per_record, NA, VROW(RID(_k1)))"]},
+    stable_shapes=("raw_spectra_per_record", _ORD, "hvsr_spectra"), modifies=["param:settings"],
+    notes="row i of the result = percentile over the azimuths of the smoothed rotated horizontal spectra of kept recording i, over its smoothed vertical spectrum")
+DRV_RD.native_row_store = True
+DRV_RD.array_fields_as_terms = True
+TASKS.append(FunctionTask(DRV_RD, module_env=dict(DRV_ENV, np=_NP_RD, single_azimuth=FuncV(_m_single_azimuth, "single_azimuth")),
+                          registry={"TimeSeries.window": FuncV(_m_window, "TimeSeries.window")},
+                          label="hvsrpy.processing.traditional_rotdpp_hvsr_processing[rows]",
+                          clauses=["one curve per window, in input order, each computed from its own window only"]))
